@@ -103,12 +103,13 @@ type c15Viol struct {
 }
 
 type c15Result struct {
-	I        int       `json:"i"`
-	Viol     []c15Viol `json:"viol,omitempty"`
-	Diverged string    `json:"diverged,omitempty"` // first observable on which the real pool and the specification differ
-	DivStep  int       `json:"divstep,omitempty"`
-	Steps    int       `json:"steps"` // steps executed and compared
-	Problem  string    `json:"problem,omitempty"`
+	I        int         `json:"i"`
+	Probe    *c15Variant `json:"probe,omitempty"`
+	Viol     []c15Viol   `json:"viol,omitempty"`
+	Diverged string      `json:"diverged,omitempty"` // first observable on which the real pool and the specification differ
+	DivStep  int         `json:"divstep,omitempty"`
+	Steps    int         `json:"steps"` // steps executed and compared
+	Problem  string      `json:"problem,omitempty"`
 }
 
 var c15RouteNames = map[string]string{
@@ -609,6 +610,54 @@ finish:
 	return res
 }
 
+// c15Variant says which variant of the algorithm the code under test implements; Pool.tla has a
+// constant for each (the specification must model what the code does).
+type c15Variant struct {
+	UnlinkOnce bool `json:"unlinkOnce"` // an entry is unlinked at most once (call-back's removeEntry is a no-op after Take/evict/Close)
+	OwnList    bool `json:"ownList"`    // Put keeps the per-key list of its own key registered while evicting
+}
+
+// c15Probe runs inside a bubble.
+func c15Probe() (v c15Variant) {
+	defer func() { _ = recover() }()
+	d := &c15Dir{own: map[int]string{}}
+	mk := func(i int) *c15Conn { return &c15Conn{d: d, id: i, closedCh: make(chan struct{})} }
+	{
+		pool := drpcpool.New[int, *c15Conn](drpcpool.Options{Capacity: 1})
+		d.inCall.Store(true)
+		pool.Put(1, mk(1))
+		pool.Put(1, mk(2))
+		_, _, kc, _ := pool.VerifCounts()
+		_, v.OwnList = kc[1]
+		_ = pool.Close()
+		d.inCall.Store(false)
+	}
+	{
+		pool := drpcpool.New[int, *c15Conn](drpcpool.Options{Expiration: c15Expiration})
+		d.inCall.Store(true)
+		pool.Put(1, mk(3))
+		d.inCall.Store(false)
+		time.Sleep(c15Expiration + time.Millisecond)
+		synctest.Wait()
+		d.inCall.Store(true)
+		pool.Take(1)
+		d.inCall.Store(false)
+		d.free.Store(true)
+		d.mu.Lock()
+		for _, cb := range d.cbs {
+			close(cb.gate)
+		}
+		d.mu.Unlock()
+		synctest.Wait()
+		oc, _, _, _ := pool.VerifCounts()
+		v.UnlinkOnce = oc == 0
+		d.inCall.Store(true)
+		_ = pool.Close()
+		d.inCall.Store(false)
+	}
+	return v
+}
+
 // c15ReplayMain is the sub-process: behaviours on stdin, results on stdout.
 func c15ReplayMain(args []string) int {
 	testing.Init()
@@ -620,11 +669,14 @@ func c15ReplayMain(args []string) int {
 			line, err := in.ReadBytes('\n')
 			if len(line) > 1 {
 				var rec struct {
-					I int     `json:"i"`
-					B *c15Beh `json:"b"`
+					I     int     `json:"i"`
+					B     *c15Beh `json:"b"`
+					Probe bool    `json:"probe"`
 				}
 				var res c15Result
-				if jerr := json.Unmarshal(line, &rec); jerr != nil || rec.B == nil {
+				if jerr := json.Unmarshal(line, &rec); jerr == nil && rec.Probe {
+					synctest.Test(t, func(t *testing.T) { v := c15Probe(); res.Probe = &v })
+				} else if jerr != nil || rec.B == nil {
 					res.Problem = fmt.Sprintf("bad behaviour record: %v", jerr)
 				} else {
 					fmt.Fprintf(out, "@@start %d\n", rec.I)
